@@ -9,6 +9,9 @@
               when everything fits into the channel
     broken    the transport failed, the client has not called Recv since
     failAfter the transport fails after that many further messages
+    clean     the fault is a CLEAN end of stream: Recv returns io.EOF (the server side finished the
+              stream with status OK) instead of a status error — for the stream itself and for the
+              failed first Recv of the re-establishments of that fault
     reestFail / forever / hold   faults injected into the re-establishment
   After every op every goroutine runs until it blocks (`pumpAll`, mirroring
   `synctest.Wait()` plus the harness waiting out the retry back-off in virtual time).
@@ -19,6 +22,11 @@
   same allowance when the harness has to time out waiting for a retry that never comes
   (the client terminated). `age` adds 2000 s. Only the store's timestamps and the
   MaxElapsedTime test see the clock.
+
+  Model mode runs `Cosi.rstep` (every regenerated fact read, the event loop's error branch by
+  `genRules`); spec mode runs `Cosi.rstepCore` — the machine C13's theorems are about — and leaves
+  delivery contents and call counts open, but not WHETHER a receive yields an `Errored` (`e=`): the
+  property's "…or terminates with an Errored event".
 -/
 import Cosi.Model.RWatch
 import Cosi.Driver.Watch
@@ -37,6 +45,7 @@ structure RW where
   reestFail : Nat := 0
   modeFirst : Bool := false
   forever : Bool := false
+  clean : Bool := false       -- Recv errors of the current fault are io.EOF
   hold : Bool := false        -- the next dial hangs until `heal`
   dialing : Bool := false     -- inside adapter.client.Watch of the retry loop
   blocked : Bool := false     -- … and hanging
@@ -71,8 +80,15 @@ def finEvent (c : RClient) : Event :=
   | .done .invalidBookmark => { erroredEvent with res := tombstone "" "" "invalidBookmark" }
   | _ => erroredEvent
 
-def RW.finish (rw : RW) (c : RClient) : RW :=
-  { rw with c := c, outq := rw.outq ++ [[finEvent c]], exited := true, dialing := false, blocked := false }
+/-- the client goroutine has returned; `c0` is its state before the step that ended it. The
+    subscriber gets the terminal Errored iff that step handed one over (it does not when the
+    event loop's error branch swallows the error: `withRules`). -/
+def RW.finish (rw : RW) (c0 c : RClient) : RW :=
+  let loud := c.delivered.length > c0.delivered.length
+  { rw with c := c, outq := if loud then rw.outq ++ [[finEvent c]] else rw.outq, exited := true, dialing := false,
+            blocked := false }
+
+def RW.err (rw : RW) : RecvErr := if rw.clean then .eof else .status
 
 def evStrC (e : Event) : String :=
   if e.typ == .errored && e.res.id == "invalidBookmark" then "errored~invalidBookmark" else evStr e
@@ -84,7 +100,8 @@ def isDone (c : RClient) : Bool :=
 
 /-- run the client goroutine (and the server side of its stream) until it blocks;
     returns the watch and the back-off allowance accumulated in this op -/
-def pump (r : Ring) (cur : Option Res) (now : Nat) : Nat → RW × Nat → RW × Nat
+def pump (stp : Ring × RClient → RStep → Ring × RClient) (r : Ring) (cur : Option Res) (now : Nat) :
+    Nat → RW × Nat → RW × Nat
   | 0, x => x
   | fuel + 1, (rw, pad) =>
     if rw.exited then (rw, pad) else
@@ -97,30 +114,33 @@ def pump (r : Ring) (cur : Option Res) (now : Nat) : Nat → RW × Nat → RW ×
         if rw.blocked then (rw, pad)
         else
           -- the Watch call of this attempt meets the (possibly faulty) transport
-          let a : Attempt := if rw.reestFail > 0 then (if rw.modeFirst then .firstRecvFail else .dialFail)
+          let a : Attempt := if rw.reestFail > 0 then (if rw.modeFirst then .firstRecvFail rw.err else .dialFail)
                              else .connect cur
-          let (_, c') := rstep (r, c) (.attempt rw.dialAt 0 a)
+          let (_, c') := stp (r, c) (.attempt rw.dialAt 0 a)
           let rw := { rw with dialing := false, reestFail := rw.reestFail - 1 }
-          if isDone c' then (rw.finish c', pad) else pump r cur now fuel ({ rw with c := c' }, pad)
+          if isDone c' then (rw.finish c c', pad) else pump stp r cur now fuel ({ rw with c := c' }, pad)
       else
         -- NextBackOff (client.go:651)
         let t := now + pad
         if t - c.boStart > c.maxElapsed then
-          ((rw.finish (rstep (r, c) (.attempt t 0 .dialFail)).2), pad + rw.termPad)
+          ((rw.finish c (stp (r, c) (.attempt t 0 .dialFail)).2), pad + rw.termPad)
         else if rw.forever then
-          -- every dial fails until the back-off gives up
-          ((rw.finish (rstep (r, c) (.attempt (c.boStart + c.maxElapsed + 1) 0 .dialFail)).2), pad + rw.termPad)
+          -- every re-establishment fails (dial error, or the first Recv of the new stream) until the
+          -- back-off gives up; the error it wraps then is the last of them
+          let a : Attempt := if rw.modeFirst then .firstRecvFail rw.err else .dialFail
+          let c1 := (stp (r, c) (.attempt t 0 a)).2
+          ((rw.finish c1 (stp (r, c1) (.attempt (c.boStart + c.maxElapsed + 1) 0 .dialFail)).2), pad + rw.termPad)
         else
           let rw' := { rw with dialing := true, dialAt := t, idx := rw.idx + 1, calls := rw.calls + 1,
                                blocked := rw.hold, hold := false }
-          pump r cur now fuel (rw', pad + padOf rw.idx)
+          pump stp r cur now fuel (rw', pad + padOf rw.idx)
     | .streaming w | .waitFirst w =>
       if rw.outq.length > rw.buf then (rw, pad)       -- blocked forwarding to the subscriber
       else if rw.broken then
-        -- cli.Recv returns the transport error
-        let (_, c') := rstep (r, c) (.fail rw.restart)
+        -- cli.Recv returns the transport error, or io.EOF
+        let (_, c') := stp (r, c) (.fail rw.restart rw.err)
         let rw := { rw with broken := false, restart := false, failAfter := none }
-        if isDone c' then (rw.finish c', pad + rw.termPad) else pump r cur now fuel ({ rw with c := c' }, pad)
+        if isDone c' then (rw.finish c c', pad + rw.termPad) else pump stp r cur now fuel ({ rw with c := c' }, pad)
       else
         match w.recv.1 with
         | none => (rw, pad)
@@ -128,12 +148,12 @@ def pump (r : Ring) (cur : Option Res) (now : Nat) : Nat → RW × Nat → RW ×
           let wasWait := match c.phase with
             | .waitFirst _ => true
             | _ => false
-          let (_, c') := rstep (r, c) (.recv (now + pad))
+          let (_, c') := stp (r, c) (.recv (now + pad))
           let fa : Option Nat := rw.failAfter.map (· - 1)
           let rw := { rw with c := c', outq := rw.outq ++ [d], idx := if wasWait then 0 else rw.idx,
                               failAfter := if fa == some 0 then none else fa,
                               broken := fa == some 0 }
-          pump r cur now fuel (rw, pad)
+          pump stp r cur now fuel (rw, pad)
 
 def St.ringOf (s : St) (rw : RW) : Ring := s.sys.ring (s.sys.rkey rw.c.ns rw.c.typ)
 
@@ -146,7 +166,7 @@ def St.curOf (s : St) (rw : RW) : Option Res :=
 def St.pumpAll (s : St) (extra : Nat := 0) : St :=
   let (rws, pad) := s.rws.foldl (fun (acc : List RW × Nat) rw =>
       -- every client lives its own (virtual) time inside the op; the op lasts for the sum of the allowances
-      let (rw', p) := pump (s.ringOf rw) (s.curOf rw) s.now 400 (rw, 0)
+      let (rw', p) := pump (if s.spec then rstepCore else rstep) (s.ringOf rw) (s.curOf rw) s.now 400 (rw, 0)
       (acc.1 ++ [rw'], acc.2 + p)) ([], 0)
   { s with rws := rws, now := s.now + 1 + pad + extra }
 
@@ -195,13 +215,14 @@ def stepLine (s : St) (op : String) (a : List (String × String)) : St × String
   | "recv" =>
     let wid := argNat a "w"
     match s.rws.find? (·.wid = wid) with
-    | none => (s.pumpAll, "rv pfx=ok d=none")
+    | none => (s.pumpAll, "rv pfx=ok e=0 d=none")
     | some rw =>
       match rw.outq with
-      | [] => (s.pumpAll, "rv pfx=ok d=none")
+      | [] => (s.pumpAll, "rv pfx=ok e=0 d=none")
       | d :: ds =>
         let s' := (s.upd wid fun rw => { rw with outq := ds }).pumpAll
-        (s', if s.spec then "rv pfx=ok d=*" else "rv pfx=ok d=" ++ delivStr (rw.c.kind == .agg) d)
+        let e := if d.any (·.typ == .errored) then "1" else "0"
+        (s', if s.spec then s!"rv pfx=ok e={e} d=*" else s!"rv pfx=ok e={e} d=" ++ delivStr (rw.c.kind == .agg) d)
   | "fail" =>
     let wid := argNat a "w"
     let n := argNat a "after"
@@ -214,7 +235,7 @@ def stepLine (s : St) (op : String) (a : List (String × String)) : St × String
       { rw with broken := n == 0, failAfter := if n == 0 then none else some n,
                 reestFail := if arg a "reest" == "inf" then 0 else argNat a "reest",
                 forever := arg a "reest" == "inf", modeFirst := arg a "mode" == "first",
-                hold := arg a "hold" == "1" }
+                clean := arg a "clean" == "1", hold := arg a "hold" == "1" }
     (s'.pumpAll, "ok")
   | "heal" =>
     let s' := s.upd (argNat a "w") fun rw => { rw with blocked := false, hold := false }
@@ -228,7 +249,7 @@ def stepLine (s : St) (op : String) (a : List (String × String)) : St × String
                          let live := match rw.c.phase with
                            | .streaming _ | .waitFirst _ => true
                            | _ => false
-                         if live then { rw with broken := true, restart := true, failAfter := none }
+                         if live then { rw with broken := true, restart := true, failAfter := none, clean := false }
                          else { rw with c := { rw.c with cookieOk := false } } }
     (s'.pumpAll, "ok")
   | "age" => (s.pumpAll 2000, "ok")
